@@ -6,15 +6,30 @@ from .engine import to_smt2, Unsupported
 
 
 class Ob:
-    __slots__ = ("fn", "clause", "label", "smt2", "lineno", "expect_sat", "pc", "claim", "axioms", "replay")
+    __slots__ = ("fn", "clause", "label", "smt2", "lineno", "expect_sat", "pc", "claim", "axioms", "replay", "hints", "hint_terms")
 
-    def __init__(self, fn, clause, label, smt2, lineno=None, expect_sat=False, pc=None, claim=None, axioms=None, replay=None):
+    def __init__(self, fn, clause, label, smt2, lineno=None, expect_sat=False, pc=None, claim=None, axioms=None, replay=None, hints=()):
+        self.hints = list(hints)
+        self.hint_terms = []
         self.fn, self.clause, self.label, self.smt2, self.lineno, self.expect_sat = fn, clause, label, smt2, lineno, expect_sat
         self.pc, self.claim, self.axioms, self.replay = pc, claim, axioms, replay
 
 
 def _solve(args):
-    smt2, timeout_ms, want_model = args
+    smt2, timeout_ms, want_model = args[:3]
+    hints = args[3] if len(args) > 3 else []
+    r = _solve1(smt2, timeout_ms, want_model)
+    if r[0] == "unknown" and hints:
+        # counterexample search in a small scope: each hint is the same query plus a size restriction (e.g. n = 0).
+        # `sat` there is a genuine counter-model of the full obligation; `unsat`/`unknown` there decides nothing.
+        for h in hints:
+            r2 = _solve1(h, min(timeout_ms, 10000), want_model, second_opinion=False)
+            if r2[0] == "sat":
+                return ("sat", r2[1], r[2] + r2[2], "z3 (small-scope counterexample search)")
+    return r
+
+
+def _solve1(smt2, timeout_ms, want_model, second_opinion=True):
     t = time.time()
     s = z3.Solver()
     s.set("timeout", timeout_ms)
@@ -30,6 +45,8 @@ def _solve(args):
         txt = {str(d): str(m[d]) for d in m.decls() if m[d] is not None and not str(d).startswith("k!")} if want_model else {}
         return ("sat", txt, time.time() - t, "z3")
     reason = s.reason_unknown()
+    if not second_opinion:
+        return ("unknown", reason, time.time() - t, "z3")
     # second opinion: cvc5 (full quantifier support differs; it may decide what z3 left open)
     t1 = time.time()
     try:
@@ -52,7 +69,7 @@ def _solve(args):
 def discharge_all(run, obs, timeout_ms=20000, procs=None, on_sat=None):
     """obs: list of Ob. Folds into run; returns list of (Ob, status, detail)."""
     procs = procs or min(16, os.cpu_count() or 4)
-    jobs = [(o.smt2, timeout_ms, True) for o in obs]
+    jobs = [(o.smt2, timeout_ms, True, o.hints) for o in obs]
     if len(jobs) <= 2 or os.environ.get("VERIF_SERIAL"):
         res = [_solve(j) for j in jobs]
     else:
@@ -72,10 +89,16 @@ def discharge_all(run, obs, timeout_ms=20000, procs=None, on_sat=None):
             if o.replay is not None and o.pc is not None:
                 # re-solve in this process to obtain a model over the original terms, then replay on the real code
                 try:
-                    sv = z3.Solver(); sv.set("timeout", timeout_ms * 2)
-                    sv.add(*o.axioms); sv.add(*o.pc); sv.add(z3.Not(o.claim))
-                    if sv.check() == z3.sat:
-                        confirmed, replay = o.replay(sv.model())
+                    got = None
+                    for extra in [None] + list(getattr(o, "hint_terms", []) or []):
+                        sv = z3.Solver(); sv.set("timeout", timeout_ms if extra is None else 10000)
+                        sv.add(*o.axioms); sv.add(*o.pc); sv.add(z3.Not(o.claim))
+                        if extra is not None:
+                            sv.add(extra)
+                        if sv.check() == z3.sat:
+                            got = sv.model(); break
+                    if got is not None:
+                        confirmed, replay = o.replay(got)
                     else:
                         replay = {"replay_error": "could not re-obtain the counter-model in-process"}
                 except Exception as e:
@@ -86,9 +109,83 @@ def discharge_all(run, obs, timeout_ms=20000, procs=None, on_sat=None):
                            "solver": "z3: sat", "counter_model": detail, "native_replay": replay},
                           confirmed=confirmed, key=f"{o.fn}::{o.clause}")
         else:
-            run.add(name, "undecided", backend, dt, detail=str(detail)[:200], clause=f"{o.fn}::{o.clause}")
+            model = None
+            if o.pc is not None and not any(ax is o.claim for ax in ()):
+                try:
+                    model = small_scope_counterexample(o)
+                except Exception:
+                    model = None
+            if model is not None:
+                run.add(name, "failed", "z3 (small-scope counterexample search)", dt, clause=f"{o.fn}::{o.clause}")
+                confirmed, replay = (False, {})
+                if o.replay is not None:
+                    try:
+                        confirmed, replay = o.replay(model)
+                    except Exception as e:
+                        replay = {"replay_error": f"{type(e).__name__}: {e}"}
+                run.violation(name, f"obligation {o.clause} of {o.fn} refuted (source line {o.lineno})",
+                              {"function": o.fn, "clause": o.clause, "path_label": o.label, "source_line": o.lineno,
+                               "solver": "z3: sat in small-scope counterexample search (pow2 table 0..16, size hints); "
+                                         "model checked to stay inside the table",
+                               "native_replay": replay}, confirmed=confirmed, key=f"{o.fn}::{o.clause}")
+                status = "sat"
+            else:
+                run.add(name, "undecided", backend, dt, detail=str(detail)[:200], clause=f"{o.fn}::{o.clause}")
         out.append((o, status, detail))
     return out
+
+
+def small_scope_counterexample(o, timeout_ms=15000, max_exp=16):
+    """For an obligation the solvers left `unknown`: search for a counter-model in a small scope.
+    pow2 is replaced by its exact table on 0..max_exp and the quantified pow2/ceil_log2 axioms are dropped; every model
+    found is checked to use pow2 only inside the table, so a `sat` here is a genuine counter-model of the obligation.
+    `unsat` or `unknown` here decide nothing (the obligation stays undecided)."""
+    from .engine import pow2, clog2
+    x = z3.Var(0, z3.IntSort())
+    body = z3.IntVal(1 << (max_exp + 1))
+    for e in range(max_exp, -1, -1):
+        body = z3.If(x == e, z3.IntVal(1 << e), body)
+    cbody = z3.IntVal(max_exp + 1)
+    for v in range(1 << 8, -1, -1):
+        pass
+    def sub(t):
+        return z3.substitute_funs(t, (pow2, body))
+    apps = []
+    seen = set()
+    def collect(t):
+        stack = [t]
+        while stack:
+            u = stack.pop()
+            if u.get_id() in seen:
+                continue
+            seen.add(u.get_id())
+            if z3.is_app(u) and u.decl().eq(pow2) and not any(z3.is_var(c) for c in u.children()):
+                apps.append(u.arg(0))
+            stack.extend(u.children())
+    for f in list(o.pc) + [o.claim]:
+        collect(f)
+    for hint in list(o.hint_terms) or [z3.BoolVal(True)]:
+        sv = z3.Solver(); sv.set("timeout", timeout_ms)
+        for f in o.pc:
+            sv.add(sub(f))
+        sv.add(z3.Not(sub(o.claim)))
+        sv.add(hint)
+        for a in apps:
+            if not _has_bound_var(a):
+                sv.add(z3.And(sub(a) >= 0, sub(a) <= max_exp))
+        if sv.check() == z3.sat:
+            return sv.model()
+    return None
+
+
+def _has_bound_var(t):
+    stack = [t]
+    while stack:
+        u = stack.pop()
+        if z3.is_var(u):
+            return True
+        stack.extend(u.children())
+    return False
 
 
 class FnVerifier:
@@ -100,10 +197,13 @@ class FnVerifier:
         self.paths = 0
         self.unsupported = None
         self.default_replay = None
+        self.scope_hints = []        # extra constraints tried ONLY to find counterexamples when the solver says unknown
 
     def add(self, clause, label, pc, claim, lineno=None, expect_sat=False, replay=None):
+        hints = [to_smt2(self.axioms, list(pc) + [h], claim) for h in self.scope_hints]
         self.obs.append(Ob(self.qualname, clause, label, to_smt2(self.axioms, pc, claim), lineno, expect_sat,
-                           pc=list(pc), claim=claim, axioms=self.axioms, replay=replay or self.default_replay))
+                           pc=list(pc), claim=claim, axioms=self.axioms, replay=replay or self.default_replay, hints=hints))
+        self.obs[-1].hint_terms = list(self.scope_hints)
 
     def add_engine_obligations(self, ex):
         for k, (label, pc, claim, lineno) in enumerate(ex.obligations):
